@@ -80,8 +80,8 @@ package mvs
 //@   callsite LoadOrStore: assert publishes-a-summary: $2.(*mvs.mvsProject) != nil
 //@   callsite LoadOrStore: assert publishes-its-edges: arr($2.(*mvs.mvsProject).Requirements) == arr(reqs) && len($2.(*mvs.mvsProject).Requirements) == len(reqs)
 //@   callsite LoadOrStore: assert publishes-its-version: $2.(*mvs.mvsProject).Version.Path == p.Path && $2.(*mvs.mvsProject).Version.Version == p.Version
-//@   loop 0: invariant one-edge-per-name: len(reqs) == rangeindex + 1 && config != nil
-//@   loop 0: step edge-is-the-requirement: when true ensures len(reqs) == old(len(reqs)) + 1 && (has(config.Requirements, name) ==> (reqs[old(len(reqs))].Path == config.Requirements[name].Path && reqs[old(len(reqs))].Version == config.Requirements[name].Version))
+//@   loop over slices.Sorted(): invariant one-edge-per-name: len(reqs) == rangeindex + 1 && config != nil
+//@   loop over slices.Sorted(): step edge-is-the-requirement: when true ensures len(reqs) == old(len(reqs)) + 1 && (has(config.Requirements, name) ==> (reqs[old(len(reqs))].Path == config.Requirements[name].Path && reqs[old(len(reqs))].Version == config.Requirements[name].Version))
 
 // ---------------------------------------------------------------- C11: Upgrade / Previous
 
@@ -93,8 +93,8 @@ package mvs
 //@   ensures not-lower: (p.Path != "" && result.1 == nil) ==> semcmp(result.0.Version, p.Version) >= 0
 //@   ensures newest: (p.Path != "" && result.1 == nil) ==> (forall j: int :: 0 <= j && j < len(versions) && semmajor(versions[j].Version) == semmajor(p.Version) ==> semcmp(versions[j].Version, result.0.Version) <= 0)
 //@   modifies heap, smap
-//@   loop 0: invariant semcmp(selected, p.Version) >= 0
-//@   loop 0: invariant forall j: int :: 0 <= j && j <= rangeindex && semmajor(versions[j].Version) == semmajor(p.Version) ==> semcmp(versions[j].Version, selected) <= 0
+//@   loop over versions: invariant semcmp(selected, p.Version) >= 0
+//@   loop over versions: invariant forall j: int :: 0 <= j && j <= rangeindex && semmajor(versions[j].Version) == semmajor(p.Version) ==> semcmp(versions[j].Version, selected) <= 0
 
 // Previous: the newest listed version of the same major strictly below the one asked about, or
 // "none" when there is none (the library's downgrade loop stops only on "none").
@@ -105,9 +105,9 @@ package mvs
 //@   ensures none: (p.Path != "" && result.1 == nil && (forall j: int :: 0 <= j && j < len(versions) ==> !(semmajor(versions[j].Version) == semmajor(p.Version) && semcmp(versions[j].Version, p.Version) < 0 && semvalid(versions[j].Version)))) ==> result.0.Version == "none"
 //@   ensures below: (p.Path != "" && result.1 == nil && result.0.Version != "none") ==> semcmp(result.0.Version, p.Version) < 0
 //@   modifies heap, smap
-//@   loop 0: invariant selected == "none" || semcmp(selected, p.Version) < 0
-//@   loop 0: invariant rangeindex < len(versions)
-//@   loop 0: invariant (forall j: int :: 0 <= j && j <= rangeindex ==> !(semmajor(versions[j].Version) == semmajor(p.Version) && semcmp(versions[j].Version, p.Version) < 0 && semvalid(versions[j].Version))) ==> selected == "none"
+//@   loop over versions: invariant selected == "none" || semcmp(selected, p.Version) < 0
+//@   loop over versions: invariant rangeindex < len(versions)
+//@   loop over versions: invariant (forall j: int :: 0 <= j && j <= rangeindex ==> !(semmajor(versions[j].Version) == semmajor(p.Version) && semcmp(versions[j].Version, p.Version) < 0 && semvalid(versions[j].Version))) ==> selected == "none"
 
 // ---------------------------------------------------------------- C10: the wrapper around the library's build list
 
@@ -124,10 +124,10 @@ package mvs
 //@   ensures every-entry: result.1 == nil ==> (forall j: int :: 0 <= j && j < len(buildList) ==> (has(result.0, buildList[j].Path) && result.0[buildList[j].Path] == buildList[j].Version))
 //@   ensures nothing-else: result.1 == nil ==> (forall k: string :: has(result.0, k) ==> (exists j: int :: 0 <= j && j < len(buildList) && buildList[j].Path == k))
 //@   modifies heap, smap
-//@   loop 1: invariant versionMap != nil && rangeindex < len(buildList)
-//@   loop 1: invariant distinct: forall i: int, j: int :: 0 <= i && i < j && j < len(buildList) ==> buildList[i].Path != buildList[j].Path
-//@   loop 1: invariant every-entry: forall j: int :: 0 <= j && j <= rangeindex ==> (has(versionMap, buildList[j].Path) && versionMap[buildList[j].Path] == buildList[j].Version)
-//@   loop 1: invariant nothing-else: forall k: string :: has(versionMap, k) ==> (exists j: int :: 0 <= j && j <= rangeindex && buildList[j].Path == k)
+//@   loop over buildList: invariant versionMap != nil && rangeindex < len(buildList)
+//@   loop over buildList: invariant distinct: forall i: int, j: int :: 0 <= i && i < j && j < len(buildList) ==> buildList[i].Path != buildList[j].Path
+//@   loop over buildList: invariant every-entry: forall j: int :: 0 <= j && j <= rangeindex ==> (has(versionMap, buildList[j].Path) && versionMap[buildList[j].Path] == buildList[j].Version)
+//@   loop over buildList: invariant nothing-else: forall k: string :: has(versionMap, k) ==> (exists j: int :: 0 <= j && j <= rangeindex && buildList[j].Path == k)
 
 // ---------------------------------------------------------------- C11: requirement names
 // Adding the requirements that did not exist before never overwrites an entry that is already in
@@ -163,5 +163,5 @@ package mvs
 //@ func (*mvs.querier).resolveUpgradeQuery
 //@   ensures not-below-selected: result.1 == nil ==> (forall j: int :: (0 <= j && j < len(buildList) && buildList[j].Path == result.0.Path && (forall k: int :: 0 <= k && k < j ==> buildList[k].Path != result.0.Path)) ==> semcmp(result.0.Version, buildList[j].Version) >= 0)
 //@   modifies heap
-//@   loop 0: invariant not-seen-yet: forall k: int :: 0 <= k && k <= rangeindex ==> buildList[k].Path != newVersion.Path
+//@   loop over buildList: invariant not-seen-yet: forall k: int :: 0 <= k && k <= rangeindex ==> buildList[k].Path != newVersion.Path
 
